@@ -101,16 +101,18 @@ def _extract(fn: ast.FunctionDef, close_span, put_defaults, off_defaults):
     return closes[0][2], opens[0][2], opens[0][3]
 
 
-def _extract_removal(fn: ast.FunctionDef, put_defaults):
+def _extract_removal(fn: ast.FunctionDef, put_defaults, CLOSE=None, OPEN=None):
     """the deleting puts of _unparenthesize_grouping: `self._put_src(None, <span>, tail[, head[, exclude]])`; spans from the node's end to the end of the closing
     parentheses (all of them, or all but the last) and from the start of the opening ones (all, or all but the first) to the node's start"""
-    CLOSE = {('end_ln', 'end_col', 'pend_ln', 'pend_col'), ('end_ln', 'end_col', 'pend_ln', 'pend_col - 1')}
-    OPEN = {('pln', 'pcol', 'ln', 'col'), ('pln', 'pcol + 1', 'ln', 'col')}
+    CLOSE = CLOSE or {('end_ln', 'end_col', 'pend_ln', 'pend_col'), ('end_ln', 'end_col', 'pend_ln', 'pend_col - 1')}
+    OPEN = OPEN or {('pln', 'pcol', 'ln', 'col'), ('pln', 'pcol + 1', 'ln', 'col')}
     closes, opens = [], []
     for c in [n for n in ast.walk(fn) if isinstance(n, ast.Call) and isinstance(n.func, ast.Attribute) and n.func.attr == '_put_src']:
         a = c.args
         if not (isinstance(c.func.value, ast.Name) and c.func.value.id == 'self') or c.keywords or not 6 <= len(a) <= 8 or any(isinstance(x, ast.Starred) for x in a):
             raise TranslationError(f'{fn.name} line {c.lineno}: unrecognised _put_src call {ast.unparse(c)[:120]}')
+        if isinstance(a[0], ast.Constant) and a[0].value == ' ' and a[1:3] and ast.unparse(a[1]) == ast.unparse(a[3]) and ast.unparse(a[2]) == ast.unparse(a[4]):
+            continue   # a blank put where the removed delimiter would glue two names (zero-width span): not modelled
         if not (isinstance(a[0], ast.Constant) and a[0].value is None):
             raise TranslationError(f'{fn.name} line {c.lineno}: not a deletion: {ast.unparse(c)[:120]}')
         span = tuple(ast.unparse(x) for x in a[1:5])
@@ -131,8 +133,6 @@ def _extract_removal(fn: ast.FunctionDef, put_defaults):
             closes.append(flags)
         elif span in OPEN:
             opens.append(flags)
-        elif span in {('end_ln', 'end_col', 'pend_ln', 'pend_col'), ('pln', 'pcol', 'ln', 'col')}:
-            pass
         else:
             raise TranslationError(f'{fn.name} line {c.lineno}: unrecognised span {span}')
     key = lambda f: tuple(sorted(f.items()))
@@ -159,6 +159,8 @@ def generate() -> list[str]:
     if any(isinstance(n, (ast.FunctionDef, ast.ClassDef)) and n.name in ('__bool__', '__len__') for n in ast.walk(ast.parse(open(os.path.join(SRC, 'fst.py')).read()))):
         raise TranslationError('FST defines __bool__ / __len__: an FST object passed as `head` is no longer simply true')
     u_close, u_open = _extract_removal(fu, put_defaults)
+    fud = find_function(misc, '_undelimit_node')
+    ud_close, ud_open = _extract_removal(fud, put_defaults, {('bn_end_ln', 'bn_end_col', 'end_ln', 'end_col')}, {('ln', 'col', 'b0_ln', 'b0_col')})
     b = lambda v: 'true' if v else 'false'
     pc = lambda f: f'{{| pc_tail := {TRI[f["tail"]]}; pc_head := {TRI[f["head"]]}; pc_excl_self := {b(f["excl"])}; pc_offset_excluded := {b(f["oe"])} |}}'
     ic = lambda f: f'{{| ic_tail := {TRI[f["tail"]]}; ic_head := {TRI[f["head"]]}; ic_self := {b(f["self_"])} |}}'
@@ -179,7 +181,10 @@ def generate() -> list[str]:
             f'Definition group_inner : innercall := {ic(g_inner)}.\n\n'
             '(* _unparenthesize_grouping: the closing parentheses are deleted first (offset point = their end), then the opening ones (offset point = the start of the node) *)\n'
             f'Definition ungroup_close : putcall := {pc(u_close)}.\n'
-            f'Definition ungroup_open : putcall := {pc(u_open)}.\n')
+            f'Definition ungroup_open : putcall := {pc(u_open)}.\n\n'
+            '(* _undelimit_node: from the end of the last element to the end of the node, then from the start of the node to the start of the first element *)\n'
+            f'Definition undelimit_close : putcall := {pc(ud_close)}.\n'
+            f'Definition undelimit_open : putcall := {pc(ud_open)}.\n')
     write_if_changed(os.path.join(COQ, 'gen', 'DelimitCalls.v'), text)
     return [f'{SRC}/fst_misc.py:_delimit_node:{region_hash(misc_src, fd)}', f'{SRC}/fst_misc.py:_parenthesize_grouping:{region_hash(misc_src, fg)}',
-            f'{SRC}/fst_misc.py:_unparenthesize_grouping:{region_hash(misc_src, fu)}']
+            f'{SRC}/fst_misc.py:_unparenthesize_grouping:{region_hash(misc_src, fu)}', f'{SRC}/fst_misc.py:_undelimit_node:{region_hash(misc_src, fud)}']
